@@ -2716,6 +2716,8 @@ func (p *Parser) parseBracedNewConstructorField() *ast.BracedConstructorField {
 		fieldValue = &ast.BracedConstructorFieldValueExpr{Colon: colon, Expr: expr}
 	case "{":
 		fieldValue = p.parseBracedConstructor()
+	default:
+		p.panicfAtToken(&p.Token, "expect ':' or '{', but %v", p.Token.Kind)
 	}
 	return &ast.BracedConstructorField{Name: name, Value: fieldValue}
 }
@@ -3843,6 +3845,8 @@ func (p *Parser) parseAlterChangeStream(pos token.Pos) *ast.AlterChangeStream {
 				Options: p.parseOptions(),
 			}
 			return cs
+		} else {
+			p.panicfAtToken(&p.Token, "expected FOR or OPTIONS after SET")
 		}
 	} else if p.Token.IsKeywordLike("DROP") {
 		droppos := p.Token.Pos
